@@ -47,6 +47,16 @@ Theorem C03_last_stop_tracks :
     head_tracks st -> head_tracks (fold_left (wstep dur dist v) r st).
 Proof. exact last_stop_tracks. Qed.
 
+(* the stops of the document are the forward grouping `wgroup` of the visited activities: consecutive activities at one
+   location share a stop; its arrival is the arrival of its first activity, its departure and load are those after its
+   last activity, its distance is the cumulative distance when it was reached (then redundant fields are removed) *)
+Theorem C03_stops_are_grouping :
+  forall (dur dist : Z -> Z -> Z) (v : vehicle) (s : wact) (r : list wact),
+    fst (write_tour dur dist v (s :: r)) =
+    map cleanup (wgroup dist (a_loc (w_act s)) (start_delivery (s :: r)) 0
+                        (unrev (hd (mkSStop 0 0 0 0 0 []) (ws_stops (start_state (s :: r) (w_act s))))) r).
+Proof. exact stops_are_grouping. Qed.
+
 (* load on board after the fold *)
 Theorem C03_load_after_fold :
   forall (dur dist : Z -> Z -> Z) (v : vehicle) (r : list wact) (st : wstate),
